@@ -238,6 +238,11 @@ fn run_parent(prop: &PropDef, tier: Tier, seed: i64, args: &[String]) -> i32 {
         }
     }
     let wall = start.elapsed().as_secs_f64();
+    if merged.states == 0 {
+        // sequence/pair explorers: a "state" is a distinct observed outcome (final observable
+        // state + return values), de-duplicated across all workers
+        merged.states = merged.outcomes.len() as u64;
+    }
 
     // classify violations
     let known = match KnownFindings::load(&vdir.join("known_findings.json")) {
